@@ -14,47 +14,42 @@ import GontainerModel.Model.Runner
 namespace GM.C12
 open GM
 
-/-- the reviewed panic-capable constructs, each with the reason it cannot fire -/
+/-- the panic-capable constructs that are not guarded in a syntactically recognisable way, each with the reason it
+cannot fire -/
 def reviewed : List (String × String) := [
   ("cmd.buildRunner: c.MustGetRunner", "shipped wiring: C19 (self configuration valid) — a broken wiring fails every run, not input-dependent"),
   ("cmd.buildRunner: c.MustGetStepValidateParamsExist", "as above"),
   ("cmd.buildRunner: c.MustGetStepValidateServicesExist", "as above"),
-  ("compiler.StepCompileDecorators.Process: index d.Decorators[j]", "j ranges over i.Decorators, slice made with that length"),
-  ("compiler.StepCompileDecorators.Process: index errs[j]", "same length"),
-  ("compiler.StepCompileServices.processScopes: index o.Services[j]", "j ranges over o.Services"),
-  ("compiler.StepCompileServices.serviceCalls: index r[i]", "r made with len(calls) when non-empty; loop body runs only then"),
-  ("compiler.resolveArgs: index r[i]", "r made with len(args) when non-empty; loop body runs only then"),
   ("imports.imports.Alias: index parts[len(parts)-1]", "strings.Split never returns an empty slice"),
-  ("imports.imports.Imports: index imps[i]", "sort callback indices"),
-  ("imports.imports.Imports: index imps[j]", "sort callback indices"),
-  ("input.Call.UnmarshalYAML: index z[0]", "guarded: len(z) == 0 returns first"),
-  ("input.Call.UnmarshalYAML: index z[1]", "guarded by len(z) >= 2"),
-  ("input.Call.UnmarshalYAML: index z[2]", "guarded by len(z) >= 3"),
-  ("maps.Keys: index keys[i]", "sort callback indices"),
-  ("maps.Keys: index keys[j]", "sort callback indices"),
-  ("output.Output.BuildDependencyGraph: index tags[i]", "tags made with len(s.Tags)"),
   ("regex.Match: index match[i]", "i ranges over SubexpNames, FindStringSubmatch has that length after MatchString succeeded"),
   ("regex.MustCompileAz: regexp.MustCompile", "package-level constants only: compiled at init, every pattern regenerated and parsed by the translator"),
   ("resolver.NonStringPrimitiveResolver.ResolveArg: exporter.MustExport", "only after Supports: non-string primitive"),
+  ("resolver.PatternResolver.ResolveArg: assert i.(string)", "ArgResolver calls ResolveArg only after Supports, which checks for a string"),
+  ("resolver.ServiceResolver.ResolveArg: assert i.(string)", "as above"),
+  ("resolver.TaggedResolver.ResolveArg: assert i.(string)", "as above"),
+  ("resolver.ValueResolver.ResolveArg: assert p.(string)", "as above"),
   ("runner.DecorateStepVerboseSwitchable: assert payload.Service.(Step)", "theorem verbose_services_are_steps"),
   ("runner.Printer.EndIndent: slice p.indents[:len(p.indents)-1]", "Indent/EndIndent are paired in StepVerboseSwitchable.Run (deferred)"),
-  ("runner.Printer.PrintAlignedLn: index extra[0]", "guarded by len(extra) > 0"),
-  ("runner.Printer.PrintAlignedLn: slice extra[1:]", "guarded by len(extra) > 0"),
   ("runner.Printer.PrintAlignedLn: strings.Repeat rowWidth - len([]rune(left+right+strings.Join(p.indents, \"\")))", "theorem repeat_count_nonneg"),
   ("runner.Printer.Println: panic", "only when the writer fails (stdout closed): environment, not input"),
   ("runner.StepReadConfig.findFiles: exporter.MustExport", "argument is a string"),
-  ("runner.StepReadConfig.findFiles: index matches[i]", "i ranges over matches"),
   ("token.FactoryFunction.Create: exporter.MustExport", "argument is a string"),
   ("token.FactoryString.Create: exporter.MustExport", "argument is a string"),
-  ("token.Tokenizer.Tokenize: index errs[i]", "made with len(chunks)"),
-  ("token.Tokenizer.Tokenize: index tkns[i]", "made with len(chunks)"),
-  ("token.Tokens.GoCode: index tkns[0]", "theorem goCode_guard"),
-  ("token.toExpr: index runes[0]", "theorem toExpr_guard"),
   ("token.toExpr: index runes[len(runes)-1]", "theorem toExpr_guard"),
   ("token.toExpr: slice runes[1 : len(runes)-1]", "theorem toExpr_guard")]
 
-/-- **the inventory of panic-capable constructs is exactly the reviewed one** -/
-theorem panic_sites_discharged : Generated.panicSites = reviewed.map (·.1) := by decide
+/-- the guards the inventory tool recognises in the typed syntax tree (each makes the construct safe by itself) -/
+def recognisedGuards : List String :=
+  ["constant index under a length check", "constant slice bound under a length check", "full slice",
+   "index by a range key into a slice made with that length", "index by a sort callback argument",
+   "index by the counter of a loop bounded by len of the same slice", "index by the key of a range over the same slice",
+   "type assertion in comma-ok form"]
+
+/-- **every panic-capable construct of the tool is guarded in a recognised way or is one of the reviewed ones** — the
+inventory is regenerated with go/types on every run; restructuring guarded code changes nothing, a new unguarded
+index, slice, assertion, Must* call or explicit panic is an undischarged obligation -/
+theorem panic_sites_discharged :
+    Generated.panicSites = reviewed.map (·.1) ∧ ∀ g ∈ Generated.guardedSites, g.1 ∈ recognisedGuards := by decide
 
 /-- `toExpr` indexes and slices only strings of at least two runes -/
 theorem toExpr_guard (e : List Char) (h : e.length < 2) : Chunk.toExpr e = none := by
@@ -80,17 +75,16 @@ theorem repeat_count_nonneg :
             "Missing parameters", "Missing services"],
       (n ++ " END" ++ "ignored" ++ "  ").length ≤ Runner.rowWidth := by decide
 
-/-- the literal step names in the code are the ones covered above -/
-theorem step_names_pinned : Generated.stepNames = ["Compile", "Default input", "Generate code", "Read config"] := by decide
+/-- … and so does every literal step name found in the code (regenerated) -/
+theorem step_names_pinned :
+    ∀ n ∈ Generated.stepNames, (n ++ " END" ++ "ignored" ++ "  ").length ≤ Runner.rowWidth := by decide
 
 /-- **every loop is a `range` or a counted loop** (no `for {}` / condition-only loop in the tool) -/
-theorem loops_bounded : ∀ l ∈ Generated.loopSites, l.2 = "range" ∨ l.2 = "for-counted" := by decide
+theorem loops_bounded : ∀ k ∈ Generated.loopKinds, k = "range" ∨ k = "for-counted" := by decide
 
-/-- the only same-name calls are interface dispatch to wrapped steps/strategies (a list of wired
-objects is traversed), not recursion on the input -/
-theorem self_calls_reviewed :
-    Generated.selfCalls = ["resolver.ArgResolver.ResolveArg", "runner.Runner.Run", "runner.StepAmalgamated.Run",
-      "runner.StepVerboseSwitchable.Run", "token.StrategyFactory.Create"] := by decide
+/-- **no recursion**: the static call graph of the module (calls through interfaces excluded: those traverse a list of
+wired steps / strategies, not the input) has no cycle -/
+theorem self_calls_reviewed : Generated.recursiveFuncs = [] := by decide
 
 /-- the model's command always ends with exit status 0 or 1 (C10) -/
 theorem run_total (w : Runner.World) (c : Output.Output → Errs) : (Runner.run w c).exit = 0 ∨ (Runner.run w c).exit = 1 := by
